@@ -30,6 +30,43 @@ def closure_expr(clo) -> Optional[ast.expr]:
     return None
 
 
+def closure_cases(clo):
+    """For a nested function of the form `if c1: return v1 ... return vn` (docstring and comments aside):
+    (number of parameters, [(condition term or None, value term), ...]) or None."""
+    n = clo.node
+    if isinstance(n, ast.Lambda):
+        t = closure_term(clo)
+        return (t[0], [(None, t[1])]) if t is not None else None
+    body = [s for s in n.body if not (isinstance(s, ast.Expr) and isinstance(s.value, ast.Constant))]
+    out = []
+    for s in body:
+        if isinstance(s, ast.If) and not s.orelse and len(s.body) == 1 and isinstance(s.body[0], ast.Return) and s.body[0].value is not None:
+            c = _expr_term(clo, s.test)
+            v = _expr_term(clo, s.body[0].value)
+            if c is None or v is None:
+                return None
+            out.append((c, v))
+        elif isinstance(s, ast.Return) and s.value is not None and s is body[-1]:
+            v = _expr_term(clo, s.value)
+            if v is None:
+                return None
+            out.append((None, v))
+        else:
+            return None
+    return len(closure_params(clo)), out
+
+
+def _expr_term(clo, e):
+    class _One:
+        pass
+
+    fake = _One()
+    fake.node = ast.Lambda(args=clo.node.args, body=e)
+    fake.scopes = clo.scopes
+    t = closure_term(fake)
+    return t[1] if t is not None else None
+
+
 def closure_term(clo):
     """(number of parameters, body term) or None."""
     e = closure_expr(clo)
